@@ -31,6 +31,10 @@ from .. import common as C
 from ..obs import observe_call, obs_term
 
 ID = "PTRS"
+# script/pointers.py is not named by any property's statement (C20 covers the address formulas it uses): a break of this
+# tie - also one that its oracle pins down, quirks included - is reported under C20 as drift of modelled code
+# (VIOLATION ... no-failing-input-found), never as a failing input of C20
+TIE_DRIFT_ONLY = True
 HEADER = "From A816 Require Import Oracle.Ptrso."
 CASE_TYPE = "case"
 CHECK = "check"
